@@ -183,6 +183,7 @@ def stmts(depth, width, top=True):
             for x in sub[:4]:
                 res.append(("switch", [("case 1:", [x, ("break",)]), ("default:", [("expr", "b = 3;")])]))
                 res.append(("switch", [("case 1:", [("block", [x, ("break",)])]), ("case 2:", []), ("default:", [("break",)])]))
+                res.append(("switch", [("case 1:", [("block", [x]), ("break",)]), ("default:", [("block", [("expr", "b = 3;")]), ("break",)])]))
         cache[key] = res
         return res
 
@@ -379,6 +380,7 @@ DECLS_CPP = [
     ("functor", "struct D { D &operator()(const char *s, int v) { return *this; } D &operator()() { return *this; } D &add() { return *this; } };\n"
                 "void fc(D *desc)\n{\n    desc->add()(\"a\", 1)(\"b\", 2)();\n    desc->add() (\"c\", 3) ();\n}\n"),
     ("convop", "struct CV { int x; operator bool() const { return x != 0; } operator const char *() const { return 0; } explicit operator int() const { return x; } };\n"),
+    ("rawstr-ml", "const char *m1 = R\"(a \tb\nc \t d)\";\nconst char *m2 = R\"ab(x )ac\" y)ab\";\nconst char *m3 = R\"(\n\tline\n    )\";\nint after_raw = 1;\n"),
     ("rawstr", "const char *rs = R\"(raw \"text\" \\n)\";\nconst char *rs2 = R\"xy(a)b)xy\";\nconst wchar_t *ws = L\"wide\";\nconst auto *u8s = u8\"utf\";\n"),
 ]
 
